@@ -162,6 +162,51 @@ impl<'de> Deserialize<'de> for Plain64 {
     }
 }
 
+/// byte strings a top-level JSON string could be meant to stand for
+fn text_candidates(stream: &[u8]) -> Vec<Vec<u8>> {
+    let t: String = match serde_json::from_slice::<String>(stream) {
+        Ok(t) => t,
+        Err(_) => return Vec::new(),
+    };
+    let mut out = vec![t.as_bytes().to_vec()];
+    if t.chars().all(|c| (c as u32) < 256) {
+        out.push(t.chars().map(|c| c as u32 as u8).collect());
+    }
+    let h = t.strip_prefix("0x").or_else(|| t.strip_prefix("0X")).unwrap_or(&t);
+    if h.len() % 2 == 0 && h.bytes().all(|b| b.is_ascii_hexdigit()) {
+        out.push((0..h.len() / 2).map(|i| u8::from_str_radix(&h[2 * i..2 * i + 2], 16).unwrap()).collect());
+    }
+    // base64, standard and URL-safe alphabets, padding optional
+    let mut acc: u32 = 0;
+    let mut bits = 0;
+    let mut b64 = Vec::new();
+    let mut ok = !t.is_empty();
+    for ch in t.trim_end_matches('=').bytes() {
+        let v = match ch {
+            b'A'..=b'Z' => ch - b'A',
+            b'a'..=b'z' => ch - b'a' + 26,
+            b'0'..=b'9' => ch - b'0' + 52,
+            b'+' | b'-' => 62,
+            b'/' | b'_' => 63,
+            _ => {
+                ok = false;
+                break;
+            }
+        };
+        acc = (acc << 6) | v as u32;
+        bits += 6;
+        if bits >= 8 {
+            bits -= 8;
+            b64.push((acc >> bits) as u8);
+            acc &= (1 << bits) - 1;
+        }
+    }
+    if ok {
+        out.push(b64);
+    }
+    out
+}
+
 /// what the loaded value is good for: the public half a loaded secret key derives (empty for the other types)
 fn model_derived(ty: u8, canon: Option<&[u8]>) -> Vec<u8> {
     match (ty, canon) {
@@ -182,6 +227,15 @@ pub fn model_apply(st: &Step) -> Out {
         }
         Step::Load { ty, fmt, stream } => {
             let expect = plain_load(*ty, *fmt, &stream.0).and_then(|p| native_model(*ty, &p));
+            if *fmt == 1 && expect.is_none() && text_candidates(&stream.0).iter().any(|c| native_model(*ty, c).is_some()) {
+                // a self-describing format's string that is a text rendering (hex, base64, raw characters) of a valid
+                // value: the property speaks of byte and sequence inputs; whether such a string is refused or read as
+                // that value is not decided here. A string rendering only invalid values must be refused like them.
+                for l in ["ok", "val", "repr_ok", "derived", "inplace_ok", "inplace_val", "inplace_derived"] {
+                    o.any(l);
+                }
+                return Out::Obs(o);
+            }
             o.f("ok", expect.is_some());
             let val = expect.clone().unwrap_or_default();
             o.b("val", &val);
@@ -817,6 +871,10 @@ pub fn expand(st: &Step, c: &mut Counters) -> Vec<Step> {
         }
         for sp in specials {
             push(c, "enum:boundary_payload", canonical_stream(ty, &sp, fmt));
+            if fmt == 1 {
+                let hexs: String = sp.iter().map(|b| format!("{:02x}", b)).collect();
+                push(c, "enum:boundary_payload_as_text", format!("\"{}\"", hexs).into_bytes());
+            }
         }
     }
     // SimFormat: the same record delivered at the serde data-model level
